@@ -131,6 +131,9 @@ def lift_t(x, t, eng):
     if n == "TTuple":
         return tuple(lift_t(e, s, eng) for e, s in zip(x, t.ts))
     if n == "TList":
+        if getattr(eng, "_lists_symbolic", False):
+            from pyvc.types import to_slist
+            return to_slist(CList(lift_t(e, t.t, eng) for e in x), t.t)      # conformance: specification helpers are written for SList
         return CList(lift_t(e, t.t, eng) for e in x)
     if n == "TRec":
         return Rec(t.cls, {f: lift_t(x[f], ft, eng) for f, ft in t.fields.items()})
@@ -329,12 +332,13 @@ def run_engine(contract, registry, args):
     return out["r"]
 
 
-def requires_hold(contract, registry, args):
+def requires_hold(contract, registry, args, lists_symbolic=False):
     from pyvc.engine import Engine
     from pyvc.concretise import lift
     eng = Engine(registry)
     eng.contract = contract
     eng._st_nodes = {}
+    eng._lists_symbolic = lists_symbolic
     env = {p: lift_t(copy.deepcopy(args[p]), t, eng) for p, t in contract.params.items()}
     hyps = []
     for kind in ("n", "o"):
@@ -597,7 +601,11 @@ def conformance(n=40, seed=1):
                     args, ghosts = c.witness(rnd)       # shaped inputs + values of the ghost parameters of the specification
                 else:
                     args = {p: gen(t, rnd) for p, t in c.params.items()}
-                    if not requires_hold(c, reg, args):
+                    try:
+                        ok_req = requires_hold(c, reg, args)
+                    except AttributeError:
+                        ok_req = requires_hold(c, reg, args, lists_symbolic=True)
+                    if not ok_req:
                         continue
                 if getattr(c, "ghost_interp", None):
                     ghosts = dict(ghosts, **c.ghost_interp(args))      # meaning of the contract's ghost functions for these inputs
